@@ -65,7 +65,9 @@ func deco(val int) decoration.Decoration {
 	}
 	g := gen.Glyphs[val%len(gen.Glyphs)]
 	d := decoration.Decoration{Horizontal: fmt.Sprintf("H%d", val), TopLeft: g}
-	d.Populate()
+	if val%3 != 2 {
+		d.Populate() // every third one is registered as it is, key points only: what is looked up is what was registered
+	}
 	return d
 }
 
@@ -543,6 +545,17 @@ func checkUnknown(c Case) *ev.Violation {
 		}
 		var tab tabular.Table = tt
 		_ = tab
+		// the same through auto: "texttable.NAME" sets a text table to the decoration NAME, whatever NAME looks like
+		if !strings.Contains(name, ".") {
+			rt := auto.New("texttable." + name)
+			rt.AddHeaders("h").AddRowItems("x")
+			if _, isText := rt.(*texttable.TextTable); !isText {
+				return ev.V("auto.New(%q) is a %T, not a text table", "texttable."+name, rt)
+			}
+			if out, rerr := rt.Render(); rerr == nil || out != "" {
+				return ev.V("auto.New(%q), a text table set to the unknown decoration %q, rendered: err=%v output=%q", "texttable."+name, name, rerr, out)
+			}
+		}
 	}
 	return nil
 }
